@@ -327,12 +327,29 @@ fn test_round(c: &Case, cx: &mut Cx) -> CaseResult {
     let inc = c.incr;
     let mode = MODES[(c.mode % 9) as usize];
     let res = with_rel(c, &rf, |rel| {
-        let mut o = SpanRound::new().smallest(UNITS[u]).mode(mode.to_jiff()).increment(inc);
-        if let Some(lg) = l_given {
-            o = o.largest(UNITS[lg]);
+        // the setters are applied in a case-dependent order: the result must not depend on it
+        let order = (c.incr as u64 ^ (c.mode as u64) << 3 ^ (c.smallest as u64) << 7 ^ c.a.u[3] as u64) % 6;
+        let mut o = SpanRound::new();
+        if order % 2 == 1 {
+            if let Some(r) = rel {
+                o = o.relative(r);
+            }
+            if let Some(lg) = l_given {
+                o = o.largest(UNITS[lg]);
+            }
         }
-        if let Some(r) = rel {
-            o = o.relative(r);
+        o = match order / 2 {
+            0 => o.smallest(UNITS[u]).mode(mode.to_jiff()).increment(inc),
+            1 => o.increment(inc).smallest(UNITS[u]).mode(mode.to_jiff()),
+            _ => o.mode(mode.to_jiff()).increment(inc).smallest(UNITS[u]),
+        };
+        if order % 2 == 0 {
+            if let Some(lg) = l_given {
+                o = o.largest(UNITS[lg]);
+            }
+            if let Some(r) = rel {
+                o = o.relative(r);
+            }
         }
         a.round(o)
     });
